@@ -65,7 +65,7 @@ func (e *ShadowEntry) match(h http.Header) string {
 	for _, f := range e.Fields {
 		a, b := e.ReqHeader.Values(f), h.Values(f)
 		switch {
-		case model.SurelySame(a, b):
+		case model.DocumentedSame(f, a, b):
 		case model.SurelyDifferent(a, b):
 			return "no"
 		default:
@@ -334,13 +334,16 @@ func buildShadow(o *world.Obs, ignoreLoc map[int]bool) *Shadow {
 	return sh
 }
 
-// overlapsOther: another call for the same URL was in flight at some time during c.
+// overlapsOther: another call for the same URL was in flight at the moment c ended - when
+// its result is written back. (A request that began and ended while c was waiting for the
+// origin is no concurrent writer: the write-back works on the index as it is then, so what
+// that request stored is still there afterwards.)
 func overlapsOther(o *world.Obs, c *world.Call, nf string) bool {
 	for _, d := range o.Calls {
 		if d == c || d.Ex < 0 || d.Ex >= len(o.Exchanges) {
 			continue
 		}
-		if d.StartSeq < c.EndSeq && (!d.Completed || d.EndSeq > c.StartSeq) {
+		if d.StartSeq < c.EndSeq && (!d.Completed || d.EndSeq > c.EndSeq) {
 			if dnf, ok := model.NF(o.Exchanges[d.Ex].Req.URL, false); ok && dnf == nf {
 				return true
 			}
